@@ -31,6 +31,6 @@ fi
 cd /verif
 for c in $checks; do
   echo "== check $c ($tier) on patched copy:"
-  VERIF_REPO=$S ./run check $c --tier $tier 2>&1 | grep -v conda | grep "VIOLATION\|by monitor\|tier=" | head -4
+  VERIF_REPO=$S ./run check $c --tier $tier 2>&1 | grep -v conda | grep "by monitor\|tier=\|KNOWN" | cut -c1-260
 done
 rm -rf $S
